@@ -3,6 +3,7 @@ import Zrnt.Prelude.Text
 import Zrnt.Gen.GoFuns
 import Zrnt.Util.Merkle
 import Zrnt.Util.MathSpec
+import Zrnt.Util.Prysm
 import Zrnt.Sha256
 /-! `zmodel c19`: each line names a helper and its arguments; the answer is
 `<regenerated model result> | <Nat-level specification result>`. -/
@@ -40,6 +41,14 @@ def c19Line (line : String) : String :=
   let bad := "bad-op"
   match toks.head?, nums with
   | some "isqrt", [n] => rU (IntegerSquareroot driverFuel n) ++ " | " ++ okN (Spec.isqrt n.toNat)
+  | some "isqrtp", [n] =>
+    rU (Prysm.integerSquareRootPrysmWith Prysm.floatEstimate driverFuel n) ++ " | " ++ okN (Spec.isqrt n.toNat)
+  | some "subnet", [spe, cps, slot, ci] =>
+    let lim := cps.toNat * spe.toNat
+    rU (ComputeSubnetForAttestation (mkSpec spe 1 1 1 1 1 1) cps slot ci) ++ " | " ++
+      (if lim < 2 ^ 64 then
+        (if ci.toNat < lim then okN (Spec.subnetForAttestation spe.toNat cps.toNat slot.toNat ci.toNat) else "err")
+       else "any")
   | some "ispow2", [n] => rB (.ok (IsPowerOfTwo n)) ++ " | ok " ++ boolStr (Spec.isPow2 n.toNat)
   | some "nextpow2", [n] => rU (.ok (NextPowerOfTwo n)) ++ " | " ++ okN (Spec.nextPow2U64 n.toNat)
   | some "maxu64", [a, b] => rU (.ok (MaxU64 a b)) ++ " | " ++ okN (max a.toNat b.toNat)
